@@ -65,7 +65,7 @@ func C01(r *report.Report, tier string) {
 		depth, cap = 3, 4096
 	}
 	al := crashAlphabet()
-	r.Rule = fmt.Sprintf("every history of <=%d operations over a %d-symbol crash alphabet (all mutating RPCs, three WRITE stability levels, multi-block and unaligned writes, truncation, renames over existing targets, removal of a 600-block sparse file freed in the background), run on the real server on a recording disk under two background policies, and for the single-operation histories (thorough: also a fifth of the two-operation ones) under every schedule with one deviation in when the journal's daemons run; every cut of the write/barrier trace x every loss choice of un-barriered writes (full product up to %d per epoch, <=2-deviation rule above); each distinct image: independent fsck of the logical disk, recovery by the real MakeNfs under two schedules, full dump must equal the reference state after a prefix that contains every stably acknowledged operation, then allocator/cache audit, six more operations, dump and fsck again. distinct_nontrivial = distinct crash images (canonical key: home blocks + live log) of all histories", depth, len(al), cap)
+	r.Rule = fmt.Sprintf("every history of <=%d operations over a %d-symbol crash alphabet (all mutating RPCs, three WRITE stability levels, multi-block and unaligned writes, truncation, renames over existing targets, removal of a 600-block sparse file freed in the background), run on the real server on a recording disk under two background policies (the histories with writes - quick: single operations and a write followed by a non-write - once more with the server's unstable option off), and for the single-operation histories (thorough: also a fifth of the two-operation ones) under every schedule with one deviation in when the journal's daemons run; every cut of the write/barrier trace x every loss choice of un-barriered writes (full product up to %d per epoch, <=2-deviation rule above); each distinct image: independent fsck of the logical disk, recovery by the real MakeNfs under two schedules, full dump must equal the reference state after a prefix that contains every stably acknowledged operation, then allocator/cache audit, six more operations, dump and fsck again. distinct_nontrivial = distinct crash images (canonical key: home blocks + live log) of all histories", depth, len(al), cap)
 	var jobs []crashArg
 	// (the special histories first: under a time budget the jobs at the end are the ones skipped)
 	// histories on a freshly formatted disk whose format has not been installed yet
@@ -86,6 +86,18 @@ func C01(r *report.Report, tier string) {
 	}
 	for _, h := range [][]fsx.Op{{{K: "REMOVE", H: "root", N: "big"}}, {{K: "SETATTR", H: "root/big", Size: 3 * 4096}, {K: "CREATE", H: "root", N: "n"}}} {
 		jobs = append(jobs, crashArg{Prop: "C01", DiskSize: 3000, Setup: big530Setup, Ops: h, Cap: 64, MaxImages: maxImg, Probe: &fsx.Probe{Full: 4 << 20}})
+	}
+	// the server run with its unstable option off (every write is committed at once and acknowledged FILE_SYNC)
+	for _, h := range crashHistories(al, depth) {
+		hasWrite := false
+		for _, o := range h {
+			if o.K == "WRITE" {
+				hasWrite = true
+			}
+		}
+		if hasWrite && (len(h) == 1 || (len(h) == 2 && (tier == "thorough" || (h[0].K == "WRITE" && h[1].K != "WRITE")))) {
+			jobs = append(jobs, crashArg{Prop: "C01", DiskSize: 3000, Setup: crashSetup, Ops: h, Cap: cap, Probe: crashProbe, NoUnstable: true})
+		}
 	}
 	for _, h := range crashHistories(al, depth) {
 		for _, eager := range []bool{false, true} {
